@@ -205,6 +205,10 @@ class RefRun:
             if nd == d:
                 raise FileNotFoundError(d)
             d = nd
+        for d in mk:
+            if len(pp.basename(d).encode()) > 255:
+                # creating the directories fails part-way: no effect remains
+                raise OSError(36, 'File name too long')
         for d in reversed(mk):
             self.fs.t[d] = ('d',)
             self.created.add(d)
